@@ -138,6 +138,7 @@ func checkC06(c *Ctx) {
 		}
 	}
 
+	checkLastElem(c, p, "C06.flagdef", []string{"dh/"})
 	// ---- C06.flaguse: enumerate every caller ----
 	exempt := map[string]string{
 		"(*kem/xwing.PublicKey).EncapsulateTo":  "X-Wing does not check the flag, by its specification (named in the property statement)",
